@@ -428,6 +428,12 @@ class Emitter:
                 return "(%s %% %s)" % (self.emit(e[2]), self.emit(e[3]))
             raise TranslateError("binary %s not supported in numeric context" % op)
         if k == "call":
+            try:
+                whole = self.path(e)
+                if whole in self.env:
+                    return self.env[whole]
+            except TranslateError:
+                pass
             fn = self.path(e[1])
             if fn == "pow" and len(e[2]) == 2:
                 base, ex = e[2]
